@@ -337,15 +337,24 @@ Qed.
 
 Lemma find_file_two_phase orc cur k u s :
   try_names orc s (find_names cur k u) =
-  match try_names orc s (probe_names (relative cur u) (cands k)) with
-  | FNone s' => if String.eqb (relative cur u) u then FNone s' else try_names orc s' (probe_names u (cands k))
+  let url := normalize u in
+  let rel := normalize (relative cur url) in
+  match try_names orc s (probe_names rel (cands k)) with
+  | FNone s' => if String.eqb rel url then FNone s' else try_names orc s' (probe_names url (cands k))
   | r => r
   end.
 Proof.
-  unfold find_names. rewrite try_names_app.
-  destruct (try_names orc s (probe_names (relative cur u) (cands k))); auto.
-  destruct (String.eqb (relative cur u) u); reflexivity.
+  unfold find_names. cbv zeta. rewrite try_names_app.
+  destruct (try_names orc s (probe_names (normalize (relative cur (normalize u))) (cands k))); auto.
+  destruct (String.eqb (normalize (relative cur (normalize u))) (normalize u)); reflexivity.
 Qed.
+
+(* for a url and an importer directory written in normal form, normalisation changes nothing *)
+Lemma find_names_normal cur k u :
+  normalize u = u -> normalize (relative cur u) = relative cur u ->
+  find_names cur k u =
+  probe_names (relative cur u) (cands k) ++ (if String.eqb (relative cur u) u then [] else probe_names u (cands k)).
+Proof. intros H1 H2. unfold find_names. cbv zeta. rewrite H1, H2. reflexivity. Qed.
 
 (* ---------- strings: directory parts ---------- *)
 Lemma split_dir_selfdir s : fst (split_dir (fst (split_dir s))) = fst (split_dir s).
@@ -478,19 +487,22 @@ Proof.
     rewrite Nat.eqb_refl. reflexivity.
 Qed.
 
-Lemma resolve_root cur k url : fst (split_dir cur) = "" -> resolve cur k url = scan url k (st0 "").
+Lemma resolve_root cur k url :
+  fst (split_dir cur) = "" -> normalize url = url -> resolve cur k url = scan url k (st0 "").
 Proof.
-  intros Hc. unfold resolve, scan, find_names, relative. rewrite Hc. cbn [append].
-  rewrite String.eqb_refl, app_nil_r. reflexivity.
+  intros Hc Hn. unfold resolve, scan.
+  assert (Hr : relative cur url = url) by (unfold relative; rewrite Hc; reflexivity).
+  rewrite find_names_normal by (rewrite ?Hr; exact Hn).
+  rewrite Hr, String.eqb_refl, app_nil_r. reflexivity.
 Qed.
 
 (* importer at the root: the resolved file is one the text allows *)
 Theorem root_allowed cur k url p f rd s' :
-  fst (split_dir cur) = "" -> is_direct url = false ->
+  fst (split_dir cur) = "" -> normalize url = url -> is_direct url = false ->
   resolve cur k url = FFound p f rd s' ->
   In f (allowed isfile (is_import k) (map dir_prefix bases) (fst (split_dir url)) (snd (split_dir url))).
 Proof.
-  intros Hc Hd H. rewrite (resolve_root cur k url Hc) in H.
+  intros Hc Hn Hd H. rewrite (resolve_root cur k url Hc Hn) in H.
   apply scan_found in H as (c & lpre & lpost & bpre & bx & bpost & Hl & Hp & Hb & Hfile & Hbpre & Hlpre); auto.
   assert (Hcdoc : In c (spec_cands (is_import k))).
   { apply code_order_documented. rewrite Hl. apply in_or_app; right; left; reflexivity. }
@@ -510,12 +522,12 @@ Proof.
 Qed.
 
 Theorem root_none_iff cur k url :
-  fst (split_dir cur) = "" -> is_direct url = false ->
+  fst (split_dir cur) = "" -> normalize url = url -> is_direct url = false ->
   ((exists s', resolve cur k url = FNone s') <->
    existing_gen isfile (map dir_prefix bases)
      (cand_names (is_import k) (fst (split_dir url)) (snd (split_dir url))) = []).
 Proof.
-  intros Hc Hd. rewrite (resolve_root cur k url Hc), (scan_none url k (st0 "") Hd). split.
+  intros Hc Hn Hd. rewrite (resolve_root cur k url Hc Hn), (scan_none url k (st0 "") Hd). split.
   - intros H. destruct (existing_gen _ _ _) as [|t r] eqn:E; [reflexivity|]. exfalso.
     assert (Ht : In t (t :: r)) by (left; reflexivity). rewrite <- E in Ht.
     apply in_existing_gen in Ht as (j & l & c & nm & f & Hj & Hcn & Hf & _).
@@ -551,19 +563,19 @@ Let bases := b0 :: others.
 Theorem subdir_allowed cur k url p f rd s' :
   let d := fst (split_dir cur) in
   let b := fst (split_dir url) in let n := snd (split_dir url) in
-  d <> "" -> is_direct url = false -> is_direct (relative cur url) = false ->
+  d <> "" -> normalize url = url -> normalize (relative cur url) = relative cur url ->
+  is_direct url = false -> is_direct (relative cur url) = false ->
   (forall bo c, In bo others -> In c (spec_cands (is_import k)) ->
       isfile (join bo (d ++ spec_name b n c)%string) = None) ->
   resolve isfile bases cur k url = FFound p f rd s' ->
   In f (allowed isfile (is_import k) ((dir_prefix b0 ++ d)%string :: map dir_prefix bases) b n).
 Proof.
-  intros d b n Hd Hdu Hdr HK2 H.
+  intros d b n Hd Hn Hn2 Hdu Hdr HK2 H.
   assert (Sp : split_dir (relative cur url) = ((d ++ b)%string, n)).
   { unfold relative. fold d. unfold d. rewrite split_dir_prefix by apply split_dir_selfdir. reflexivity. }
-  unfold resolve in H. rewrite find_file_two_phase in H.
   assert (Hneq : String.eqb (relative cur url) url = false).
   { apply String.eqb_neq. unfold relative. fold d. apply prefix_neq. exact Hd. }
-  rewrite Hneq in H.
+  unfold resolve in H. rewrite (find_names_normal cur k url Hn Hn2), Hneq, try_names_app in H.
   change (try_names (orc_of (fs_find isfile bases)) (st0 "") (probe_names (relative cur url) (cands k)))
     with (scan isfile bases (relative cur url) k (st0 "")) in H.
   destruct (scan isfile bases (relative cur url) k (st0 "")) as [p1 f1 rd1 s1|s1|s1] eqn:Ph1.
